@@ -44,6 +44,8 @@ impl Interval {
     /// assert_eq!(interval.min, 0.0);
     /// assert_eq!(interval.max, 1.0);
     /// ```
+    #[cfg_attr(kani, kani::requires(!min.is_nan() && !max.is_nan()))]
+    #[cfg_attr(kani, kani::ensures(|r: &Interval| crate::verif_kani::interval::post_new(min, max, r)))]
     pub fn new(min: f64, max: f64) -> Self {
         assert!(!min.is_nan());
         assert!(!max.is_nan());
@@ -125,6 +127,8 @@ impl Interval {
     /// let interval = Interval::new(0.0, 1.0);
     /// assert_eq!(interval.length(), 1.0);
     /// ```
+    #[cfg_attr(kani, kani::requires(crate::verif_kani::interval::valid(self) && crate::verif_kani::interval::finite(self)))]
+    #[cfg_attr(kani, kani::ensures(|r: &f64| crate::verif_kani::interval::post_length(self, *r)))]
     pub fn length(&self) -> f64 {
         self.max - self.min
     }
@@ -145,6 +149,7 @@ impl Interval {
     /// assert!(interval.contains(0.5));
     /// assert!(!interval.contains(1.5));
     /// ```
+    #[cfg_attr(kani, kani::ensures(|r: &bool| crate::verif_kani::interval::post_contains(self, x, *r)))]
     pub fn contains(&self, x: f64) -> bool {
         x >= self.min && x <= self.max
     }
@@ -165,6 +170,7 @@ impl Interval {
     /// let other = Interval::new(0.25, 0.75);
     /// assert!(interval.contains_interval(&other));
     /// ```
+    #[cfg_attr(kani, kani::ensures(|r: &bool| crate::verif_kani::interval::post_contains_interval(self, other, *r)))]
     pub fn contains_interval(&self, other: &Interval) -> bool {
         self.contains(other.min) && self.contains(other.max)
     }
@@ -186,6 +192,8 @@ impl Interval {
     /// let other = Interval::new(0.5, 1.5);
     /// assert!(interval.overlaps(&other));
     /// ```
+    #[cfg_attr(kani, kani::requires(crate::verif_kani::interval::valid(self) && crate::verif_kani::interval::valid(other)))]
+    #[cfg_attr(kani, kani::ensures(|r: &bool| crate::verif_kani::interval::post_overlaps(self, other, *r)))]
     pub fn overlaps(&self, other: &Interval) -> bool {
         self.contains(other.min) || other.contains(self.min)
     }
@@ -211,6 +219,8 @@ impl Interval {
     ///    panic!("interval.intersection returned None");
     /// }
     /// ```
+    #[cfg_attr(kani, kani::requires(crate::verif_kani::interval::valid(self) && crate::verif_kani::interval::valid(other)))]
+    #[cfg_attr(kani, kani::ensures(|r: &Option<Interval>| crate::verif_kani::interval::post_intersection(self, other, r)))]
     pub fn intersection(&self, other: &Interval) -> Option<Interval> {
         if self.overlaps(other) {
             Some(Interval::new(
@@ -245,6 +255,8 @@ impl Interval {
     /// // Clamping a value above the maximum returns the maximum
     /// assert_eq!(interval.clamp(2.0), 1.0);
     /// ```
+    #[cfg_attr(kani, kani::requires(crate::verif_kani::interval::valid(self) && !x.is_nan()))]
+    #[cfg_attr(kani, kani::ensures(|r: &f64| crate::verif_kani::interval::post_clamp(self, x, *r)))]
     pub fn clamp(&self, x: f64) -> f64 {
         x.min(self.max).max(self.min)
     }
